@@ -57,6 +57,15 @@ def gen_package(r, purelib, name):
                 body.append(hops.emit(ir, "class")[1])
                 body.append("")
                 syms.append(cname)
+            if r.random() < 0.4:
+                # a top-level function next to the classes, re-exported like them
+                fname = r.choice(["scale", "load", "build", "check"]) + "_" + m + "_" + sub
+                fir = irgen.rand_ir(r, nparams=r.randint(1, 3), type_kinds=("int", "float", "str", "bool"),
+                                    default_kinds=("int", "float", "str", "bool"), all_defaults=True, with_return=False,
+                                    name=fname)
+                body.append(hops.emit(fir, "function", function_type="static")[1])
+                body.append("")
+                syms.append(fname)
             body.append("__all__ = %r" % syms)
             rel_dir = os.path.join(root, sub, "deep") if depth3 else os.path.join(root, sub)
             fqn = "%s.%s%s" % (subpkg, "deep." if depth3 else "", m)
